@@ -75,7 +75,7 @@ def main(ctx):
     if not ok:
         raise vf.CheckerBroken("SubgraphModel.v does not compile: " + out[-500:])
     bindir = ctx.harness(GROUP, profile="release", bins=["c24"])
-    cases = ctx.gen_exec(bindir, "c24", ctx.n(240, 1200), inputs=ctx.replay_inputs())
+    cases = ctx.gen_exec(bindir, "c24", ctx.n(160, 900), inputs=ctx.replay_inputs())
     terms = [c["term"] for c in cases]
     # pass 1 (informational): which cases are in the known class F19 (decided inside Coq from the
     # model), which deviate from the model of today's If/Loop
